@@ -65,9 +65,10 @@ def scan_hash_iteration(crate):
             decl = M.Body.callee_decl(t) or ""
             hit = None
             # inherent methods: std::collections::HashMap::<K, V, S>::iter
-            for ht in ("std::collections::HashMap::<K, V, S>::", "std::collections::HashSet::<T, S>::"):
-                if decl.startswith(ht) and decl[len(ht):] in HASH_ITER_METHODS:
-                    hit = decl
+            import re as _re
+            mm = _re.match(r"^std::collections::(?:hash_map::|hash_set::)?(HashMap|HashSet)::<[^>]*>::(\w+)$", decl)
+            if mm and mm.group(2) in HASH_ITER_METHODS:
+                hit = f"{mm.group(1)}::{mm.group(2)}"
             g = (t.get("func") or {}).get("gargs") or []
             if decl.endswith("iter::IntoIterator::into_iter") and g and _is_hash_ty(g[0]):
                 hit = f"IntoIterator::into_iter on {g[0].split('<')[0]}"
